@@ -149,7 +149,7 @@ def tlc(ctx, module, cfg=None, workers=None, timeout=600, simulate=None, depth=N
         raise Infra("no such spec module " + module)
     if not os.path.exists(os.path.join(d, cfg)):
         raise Infra("no such cfg " + cfg)
-    meta = os.path.join(ctx.work, "meta-%s-%d" % (module, int(time.time() * 1000) % 10**9))
+    meta = os.path.join(ctx.work, "meta-%s-%s" % (module, os.urandom(6).hex()))
     cmd = ["java", "-XX:+UseParallelGC", "-Xss" + xss]
     if dfs:
         cmd.append("-Dtlc2.tool.queue.IStateQueue=StateDeque")
